@@ -847,7 +847,31 @@ func (w *World) atAsserts(fr *Frame, st *State, kind string, ins ssa.Instruction
 	if !found {
 		return
 	}
+	// the field the map operand was loaded from ("T.f"), when it is read directly from a struct field
+	mapField := ""
+	var mop ssa.Value
+	switch x := ins.(type) {
+	case *ssa.Lookup:
+		mop = x.X
+	case *ssa.MapUpdate:
+		mop = x.Map
+	}
+	if u, ok := mop.(*ssa.UnOp); ok && u.Op == token.MUL {
+		if fa, ok := u.X.(*ssa.FieldAddr); ok {
+			pt := deref(fa.X.Type())
+			if stt, ok := pt.Underlying().(*types.Struct); ok {
+				tn := pt.String()
+				if n, ok := pt.(*types.Named); ok {
+					tn = n.Obj().Name()
+				}
+				mapField = tn + "." + stt.Field(fa.Field).Name()
+			}
+		}
+	}
 	for _, as := range fr.contract.Asserts {
+		if as.Kind == kind && as.Field != "" && as.Field != mapField {
+			continue
+		}
 		if as.Kind == kind && (as.Ord == ord || as.Ord == 0) {
 			w.firedAsserts[as] = true
 			env := w.contractEnv(fr, st, fr.entry)
